@@ -20,7 +20,8 @@ contributing each member in turn), with c, without c, only the schema-later and 
 part; EVERY ordered pair of kinds of T (with repetition) for every type, not only repeatable ones;
 thorough tier: every ordered triple for types with repeatable content and <= 12 kinds. Parents are built
 as XML text and parsed with the library's own parser, children empty (c:dLbl / c:dPt get a c:idx so the
-hand-written idx-ordered inserters can run).
+hand-written idx-ordered inserters can run; p:childTnLst is nested in a p:sld/p:timing document because
+add_video reads the cTn ids of the whole slide).
 
 Oracle (c10_model.Model.valid): the sequence of direct-child TAGS of the parent must validate, as type T,
 against the relaxed schema (minOccurs=0 everywhere, attributes optional), before (else the context is
@@ -485,10 +486,10 @@ def _work(part, chunk):
                 if cur is None or key < cur[0]:
                     fails[rule] = (key, msg, cx)
         if judged:
-            part.count("triples_judged")  # (tag, type, mutator) with at least one judged case
+            part.count("items_judged")  # (tag, type, mutator, args) with at least one judged case
             part.add("classes_judged", cls.__name__)
         else:
-            part.count("triples_never_judged")
+            part.count("items_never_judged")
         for rule, (key, msg, cx) in sorted(fails.items()):
             sig = "C10|%s|%s|%s|%s|ctx=%s" % (rule, ptag(tag), T[1], _mut_label(mname, label), ",".join(key[1]))
             part.violation(sig, msg, {"tag": tag, "type": list(T), "mutator": mname, "label": label,
